@@ -137,7 +137,7 @@ def judge(chk, c, obs, dropped):
 
 def main(tier, seed, scale=1.0):
     chk = Check(PROP, tier, seed)
-    n = int((320 if tier == "quick" else 30000) * scale)
+    n = int((960 if tier == "quick" else 30000) * scale)
     cap = 20 if tier == "quick" else 36
     chk.rule = ("random struct/enum definitions with PartialEq (and Eq) educed, ignore/method attributes in random "
                 "spellings carried by PartialEq(..) or Eq(..); ==/!= on all ordered pairs of a value set per type "
